@@ -1,5 +1,5 @@
 (* C01 - the bundle wire codec is lossless, deterministic and idempotent. *)
-From DTN Require Import Base Cbor Crc Eid Bundle BundleWf BundleProofs ValidProofs ConstsOkCodec.
+From DTN Require Import Base Cbor Crc Eid Bundle BundleWf BundleProofs ValidProofs DecodeWf ConstsOkCodec.
 Open Scope N_scope.
 
 (* Serialising any valid bundle (every field in the range its Go type holds, passing CheckValid at
@@ -23,22 +23,35 @@ Print Assumptions C01_roundtrip.
    picks is some duplicate-free list b', and the theorem above applies to b' itself: the decoder
    returns exactly the encoder's order. *)
 
-(* Second sentence, conditional form (PARTIAL): a byte string the parser accepts yields a bundle
-   that passes CheckValid; if its fields are in range ([bundle_wf], which the decoder establishes
-   for everything it reads - that implication is validated on every accepted case of the
-   correspondence run but not yet proved here) it re-serialises to bytes the parser accepts again
-   as the identical bundle: same ID, same blocks and payload, payload last. *)
-Theorem C01_reserialise_partial : forall now bs b rest,
-  dec_bundle now bs = Some (b, rest) -> bundle_wf b = true ->
-  exists bs', enc_bundle b = Some bs' /\ dec_bundle now bs' = Some (b, [])
+(* Second sentence: every byte string (of bytes) the parser accepts yields a bundle b that
+   re-serialises to bytes bs' which the parser accepts again, completely, as norm_bundle b - that is b
+   with the fragment offset / total length cleared when the fragment flag is not set (the parser
+   tolerates a 10/11-element primary block without the flag; the serialiser drops the two fields):
+   same bundle ID, the very same blocks and payload, the payload block last; and serialising that
+   result again yields the same bytes.  No hypothesis beyond "the input consists of bytes". *)
+Theorem C01_reserialise : forall now bs b rest,
+  bytes_ok bs = true -> dec_bundle now bs = Some (b, rest) ->
+  exists bs', enc_bundle b = Some bs'
+              /\ dec_bundle now bs' = Some (norm_bundle b, [])
+              /\ enc_bundle (norm_bundle b) = Some bs'
+              /\ id_str (norm_bundle b) = id_str b
+              /\ b_blocks (norm_bundle b) = b_blocks b
               /\ (exists pre pl, b_blocks b = pre ++ [pl] /\ c_type pl = 1).
 Proof.
-  intros now bs b rest Hd Hwf. pose proof (dec_bundle_valid now bs b rest Hd) as Hv.
-  exists (bundle_bytes b). split; [exact (enc_bundle_ok b Hwf)|]. split.
-  - rewrite <- (app_nil_r (bundle_bytes b)). exact (dec_bundle_enc now b [] Hwf Hv).
-  - destruct (wf_payload_last now b (check_valid_sound now b Hv)) as (pre & pl & H1 & H2 & _). exists pre, pl. tauto.
+  intros now bs b rest Hb Hd.
+  pose proof (decoded_bundle_wf now bs b rest Hb Hd) as Hwf.
+  pose proof (dec_bundle_valid now bs b rest Hd) as Hv.
+  assert (Hv' : check_valid now (norm_bundle b) = true) by (rewrite norm_check_valid; exact Hv).
+  assert (Henc : enc_bundle b = enc_bundle (norm_bundle b)).
+  { unfold enc_bundle, norm_bundle. cbn [b_pri b_blocks]. rewrite norm_enc_primary. reflexivity. }
+  exists (bundle_bytes (norm_bundle b)).
+  split; [rewrite Henc; exact (enc_bundle_ok _ Hwf)|].
+  split; [rewrite <- (app_nil_r (bundle_bytes (norm_bundle b))); exact (dec_bundle_enc now _ [] Hwf Hv')|].
+  split; [exact (enc_bundle_ok _ Hwf)|].
+  split; [exact (norm_id_str b)|]. split; [reflexivity|].
+  destruct (wf_payload_last now b (check_valid_sound now b Hv)) as (pre & pl & H1 & H2 & _). exists pre, pl. tauto.
 Qed.
-Print Assumptions C01_reserialise_partial.
+Print Assumptions C01_reserialise.
 
 (* non-vacuity: a concrete bundle with CRC-32 primary, an age block (CRC-16) and a payload *)
 Definition ex_bundle : bundle :=
